@@ -128,3 +128,27 @@ def mgr_diff(workdir, ops, maxblk, seed, repo=REPO):
     return {"ok": r.returncode == 0, "text": r.stdout + ("\n[crashed: exit %d]" % r.returncode if r.returncode not in (0, 1) else ""),
             "calls": calls_n, "cases": cases, "wall_s": time.time() - t0, "families": len(fams),
             "cmd": "mgr_diff %d %d %d" % (ops, maxblk, seed)}
+
+
+def mur_diff(workdir, lmax, reps, seed, repo=REPO):
+    """bounded native check of the stitched mh_sha1_murmur3_x64_128 API against Appleby's reference and the stand-alone mh_sha1"""
+    import glob
+    from . import misc_jobs
+    os.makedirs(workdir, exist_ok=True)
+    inv = misc_jobs.writable_inventory(os.path.join(workdir, "objs"), repo)  # builds every object of the library
+    if inv["build_failures"]:
+        raise RuntimeError("library objects did not build: %s" % inv["build_failures"][0][0])
+    objs = sorted(glob.glob(os.path.join(workdir, "objs", "*.o")))
+    exe = os.path.join(workdir, "mur_diff")
+    r = subprocess.run(["gcc", "-O1", "-w", "-I" + os.path.join(repo, "include"), os.path.join(VERIF, "native", "mur_diff.c")] + objs + ["-o", exe],
+                       capture_output=True, text=True)
+    if r.returncode:
+        raise RuntimeError("link failed: " + r.stderr[-800:])
+    t0 = time.time()
+    r = subprocess.run([exe, str(lmax), str(reps), str(seed)], capture_output=True, text=True, timeout=1800)
+    cases = 0
+    for tok in r.stdout.split():
+        if tok.startswith("cases="):
+            cases = int(tok[6:])
+    return {"ok": r.returncode == 0, "text": r.stdout + ("\n[crashed: exit %d]" % r.returncode if r.returncode not in (0, 1) else ""),
+            "calls": cases, "cases": cases, "wall_s": time.time() - t0, "cmd": "mur_diff %d %d %d" % (lmax, reps, seed)}
